@@ -69,10 +69,8 @@ theorem normAx_lt {n : Nat} {a : Ax} {x : NAx} (h : normAx n a = .ok x) : ∀ t 
   | list l =>
     simp only [normAx] at h
     split at h
+    · rename_i js hjs; cases h; exact mapM_normInt_lt l js hjs
     · cases h
-    · split at h
-      · rename_i js hjs; cases h; exact mapM_normInt_lt l js hjs
-      · cases h
   | slice s b st =>
     simp only [normAx] at h
     split at h
